@@ -153,6 +153,12 @@ fn drive_ready(mode: Mode, w: &W, svc: &H, expr: &T, n: usize, st: &mut Stats) -
 
 /// Drive one future to completion under the mode's executor discipline.
 fn drive_fut<Tv>(mode: Mode, w: &W, fut: &mut BF<Tv>, what: &str, st: &mut Stats) -> Result<Tv, Fail> {
+    drive_fut2(mode, w, fut, what, st, true)
+}
+
+/// `readiness_wait_ok`: a factory future may wait for the readiness of the service it has built
+/// (apply_cfg_factory); a call future has no business waiting for anybody's readiness
+fn drive_fut2<Tv>(mode: Mode, w: &W, fut: &mut BF<Tv>, what: &str, st: &mut Stats, readiness_wait_ok: bool) -> Result<Tv, Fail> {
     let mut woken = true;
     for _ in 0..MAX_ROUNDS {
         if mode == Mode::Contract && !woken {
@@ -170,9 +176,9 @@ fn drive_fut<Tv>(mode: Mode, w: &W, fut: &mut BF<Tv>, what: &str, st: &mut Stats
                 st.saw_pending_fut = true;
                 let live = w.live_futs();
                 // a pending readiness wait (apply_cfg_factory) also justifies Pending
-                let ready_wait: Vec<usize> = w.leaves.borrow().iter().enumerate()
+                let ready_wait: Vec<usize> = if !readiness_wait_ok { vec![] } else { w.leaves.borrow().iter().enumerate()
                     .filter(|(_, l)| matches!(l.ready, RState::Pending(_)) && l.polled_round == Some(w.round.get()))
-                    .map(|(i, _)| i).collect();
+                    .map(|(i, _)| i).collect() };
                 if mode == Mode::Contract {
                     vensure!(!live.is_empty() || !ready_wait.is_empty(), "C12/spurious-pending",
                         "{}: returned Pending although no inner future is pending (every created inner future has completed)", what);
@@ -210,7 +216,7 @@ fn serve(mode: Mode, w: &W, svc: &H, expr: &T, reqs: &[u32], scripts: &[LeafScri
         }
         let log_start = w.log.borrow().len();
         let mut fut: BF<Result<u32, u32>> = svc.call(*req);
-        let got = drive_fut(mode, w, &mut fut, &format!("call future of request {} ({})", n, req), st)?;
+        let got = drive_fut2(mode, w, &mut fut, &format!("call future of request {} ({})", n, req), st, false)?;
         drop(fut);
         let mut want_log = vec![];
         let want = eval(expr, *req, scripts, ref_calls, &mut want_log);
@@ -265,6 +271,7 @@ fn check_svc_inner(mode: Mode, c: &SvcCase) -> CaseResult {
     obs.label_if(has_and_then_t(&tree), "and_then");
     obs.label_if(w.permit_used.get() == (true, true), "coupled-stages");
     obs.label_if(format!("{:?}", tree).contains("Split("), "split-clone");
+    obs.label_if(w.lapsed.get(), "readiness-lapsed");
     obs.label_if(st.saw_pending_ready, "pending-readiness");
     obs.label_if(st.saw_pending_fut, "pending-future");
     obs.label_if(st.saw_err, "call-error");
@@ -512,7 +519,8 @@ fn leaf_script() -> impl Strategy<Value = LeafScript> {
         0..4,
     );
     let init = prop::option::weighted(0.7, (prop_oneof![2 => Just(0u8), 2 => 1u8..3], prop_oneof![5 => Just(InitOut::Ok), 1 => (200u32..220).prop_map(InitOut::Err)]));
-    (ready, calls, init, prop_oneof![6 => Just(0u8), 2 => Just(1u8), 2 => Just(2u8)]).prop_map(|(ready, calls, init, permit)| LeafScript { ready, calls, init, permit })
+    let lapse = prop::option::weighted(0.25, (0u8..2, 0u8..3, prop_oneof![4 => Just(RFinal::Ok), 1 => (100u32..120).prop_map(RFinal::Err)]));
+    (ready, calls, init, prop_oneof![6 => Just(0u8), 2 => Just(1u8), 2 => Just(2u8)], lapse).prop_map(|(ready, calls, init, permit, lapse)| LeafScript { ready, calls, init, permit, lapse })
 }
 
 pub fn svc_strategy() -> impl Strategy<Value = SvcCase> {
@@ -525,7 +533,7 @@ pub fn fac_strategy() -> impl Strategy<Value = FacCase> {
         .prop_map(|(tree, leaves, cfg, reqs, drop_factory_early)| FacCase { tree, leaves, cfg, reqs, drop_factory_early })
 }
 
-const RULE_11: &str = "random combinator expression trees (depth <= 3 recursion levels; and_then, map, map_err, apply_fn in 4 modes, boxed::service, rc_service, Rc, Box, RefCell, &, &mut wrappers, fn_service, and 'split' nodes that ask readiness through one clone of a combinator service and send requests through another; factory forms: and_then, map, map_err, map_init_err, map_config, unit_config, apply_fn_factory, apply(Transform | Rc<Transform> | Arc<Transform>), apply_cfg, apply_cfg_factory, boxed::factory, Rc, Arc, fn_factory, fn_factory_with_config) over scripted leaves (call: 0..2 Pending then Ok(f(req))/Err(g(req)); init: 0..2 Pending then Ok/InitErr; call futures optionally coupled through one shared permit that a 'hold' future owns from creation to drop and a 'need' future cannot progress without; a transform's construction future fails if the transform object is dropped while it runs), 1-3 requests, each factory built twice, in half of the cases the factory value is dropped right after the last new_service call; result and exact sequential log of leaf calls and mapper applications compared with a reference interpreter; factories: each item created once with the mapped config, first init error in time (ties accepted), produced service judged by the service oracle; non-trivial = depth >= 2 with and_then / a factory chain and a Pending or Err leaf";
+const RULE_11: &str = "random combinator expression trees (depth <= 3 recursion levels; and_then, map, map_err, apply_fn in 4 modes, boxed::service, rc_service, Rc, Box, RefCell, &, &mut wrappers, fn_service, and 'split' nodes that ask readiness through one clone of a combinator service and send requests through another; factory forms: and_then, map, map_err, map_init_err, map_config, unit_config, apply_fn_factory, apply(Transform | Rc<Transform> | Arc<Transform>), apply_cfg, apply_cfg_factory, boxed::factory, Rc, Arc, fn_factory, fn_factory_with_config) over scripted leaves (readiness: 0..2 rounds Pending then Ok/Err, optionally lapsing back to Pending or Err when nobody calls the leaf within 0..1 rounds of its being ready; call: 0..2 Pending then Ok(f(req))/Err(g(req)); init: 0..2 Pending then Ok/InitErr; call futures optionally coupled through one shared permit that a 'hold' future owns from creation to drop and a 'need' future cannot progress without; a transform's construction future fails if the transform object is dropped while it runs), 1-3 requests, each factory built twice, in half of the cases the factory value is dropped right after the last new_service call; result and exact sequential log of leaf calls and mapper applications compared with a reference interpreter; factories: each item created once with the mapped config, first init error in time (ties accepted), produced service judged by the service oracle; non-trivial = depth >= 2 with and_then / a factory chain and a Pending or Err leaf";
 const RULE_12: &str = "same trees; leaves are state-based (Pending/Ready/Err changed between composite polls by the driver, waking stored wakers); executor with a fresh waker per poll that re-polls only after a wake-up; poll_ready: Ready(Ok) only if all leaves ready, Err must be a (mapped) leaf error, Pending only if a leaf is pending and every pending leaf was polled with the current waker; futures: no poll after completion, Pending only while an inner future (or readiness wait) is pending and polled with the current waker, wake-through, no stage invoked twice; non-trivial = >= 2 leaves with a pending readiness, or a pending inner future";
 
 pub fn run_c11(ctx: &Ctx) {
